@@ -101,7 +101,7 @@ func opsFor(flow string) []string {
 // boundedJobs: one job per (configuration, backend, flow, first operation); the subtree below is explored by the job.
 func boundedJobs(r *runner.Run, emit func(job) bool) bool {
 	type lens struct{ memory, sqlite int }
-	l := runner.Pick(r, lens{4, 3}, lens{5, 4})
+	l := runner.Pick(r, lens{4, 3}, lens{5, 4}) // quick: push histories have the same bounds; thorough: push <= 4 on both backends
 	depths := runner.Pick(r, []int{1, 2}, []int{1, 2, 3})
 	var confs []qconf
 	for _, pol := range []string{"drop_oldest", "reject"} {
@@ -134,6 +134,12 @@ func boundedJobs(r *runner.Run, emit func(job) bool) bool {
 				}
 			}
 			for _, fl := range flows {
+				max := max
+				if fl == flowPush && max > 4 {
+					// push histories have no lease operations: filling the deepest queue and one refused enqueue are
+					// max_depth+1 operations, one more than that adds little and costs a dispatcher run each
+					max = 4
+				}
 				for _, first := range []string{"I", "P1", "P2", "P3", "Bdup"} { // every other operation is a no-op on an empty queue
 					if !emit(job{Backend: be, Flow: fl, Hist: &hist{Conf: cf, Ops: []string{first}, MaxLen: max}}) {
 						return false
